@@ -231,6 +231,11 @@ func (d *Decoder) decodeValue(value reflect.Value) {
 		return
 	}
 
+	if val == nil || !reflect.TypeOf(val).ConvertibleTo(value.Type()) {
+		d.err = fmt.Errorf("got %T, but it can't be used as %v", val, value.Type())
+		return
+	}
+
 	value.Set(reflect.ValueOf(val).Convert(value.Type()))
 }
 
